@@ -403,3 +403,37 @@ func TestVX_C16_Chain(t *testing.T) {
 		}
 	}
 }
+
+// TestVX_C16_MultiSelect: the masked table selection returns exactly entry bits-1 (or the fallback) for every selector.
+func TestVX_C16_MultiSelect(t *testing.T) {
+	r := vx.Begin("C16", "multiselect", "SM2Element.MultiSelect for table widths {1,2,15,31,63,127,255} and every selector value 0..255: the result is entry bits-1 when 1<=bits<=width, the fallback element when the fallback condition is 0, else zero-or-entry exactly as the masked OR defines; table entries carry carry-critical limbs. Finite space enumerated completely")
+	defer r.End()
+	for _, width := range []int{1, 2, 15, 31, 63, 127, 255} {
+		tab := make([]*[4]uint64, width)
+		for i := range tab {
+			tab[i] = &[4]uint64{uint64(i+1) * 0x0101010101010101, ^uint64(i), uint64(i) << 32, 0xffffffffffffffff - uint64(i)}
+		}
+		for bits := 0; bits < 256; bits++ {
+			for fbc := 0; fbc <= 1; fbc++ {
+				r.Eval(1)
+				var fb, out fiat.SM2Element
+				fb.SetRaw([4]uint64{7, 8, 9, 10})
+				out.MultiSelect(&tab, width, byte(bits), &fb, fbc)
+				var want [4]uint64
+				if fbc == 0 {
+					want = [4]uint64{7, 8, 9, 10}
+				}
+				if bits >= 1 && bits <= width {
+					for k := 0; k < 4; k++ {
+						want[k] |= tab[bits-1][k]
+					}
+				}
+				if *out.GetRaw() != want {
+					r.Violation(fmt.Sprintf("fe:multiselect:width%d", width), fmt.Sprintf("MultiSelect(width %d, bits %d, fallbackCond %d) = %x, masked selection defines %x", width, bits, fbc, *out.GetRaw(), want), map[string]int{"width": width, "bits": bits, "fbc": fbc})
+				}
+				r.Shape(fmt.Sprintf("ms:%d:%d:%d", width, bits, fbc))
+			}
+		}
+		r.Sample(map[string]int{"width": width})
+	}
+}
